@@ -816,6 +816,77 @@ def _canon_repeat_with_take(f, bid):
     return True
 
 
+def _desugar_choice(views, f, bid, depth, stack, pending):
+    """value-selecting std helpers written as the branch they abbreviate:
+         opt.or_else(|| e)   =>  match opt { Some(_) => opt, None => e }          opt.or(x)        =>  match opt { Some(_) => opt, None => x }
+         b.then_some(v)      =>  if b { Some(v) } else { None }                   b.then(|| e)     =>  if b { Some(e) } else { None }"""
+    b = f["blocks"][bid]
+    t = b["term"]
+    nm = t.get("name")
+    if t.get("target") is None or t["dest"]["proj"] or t.get("resolved_crate") != "core" or t.get("trait") is not None:
+        return False
+    line, dest, target = t.get("line"), t["dest"], t["target"]
+    O = "std::option::Option"
+    mk = lambda place, rv: {"k": "assign", "place": place, "rv": rv, "line": line, "exp": None, "synth": True}
+    pl = lambda l, proj=(): {"local": l, "proj": list(proj)}
+    goto_t = {"k": "goto", "target": target, "line": line, "exp": None}
+
+    def closure_call(cop, cdest, ctarget):
+        cpl = cop.get("move") or cop.get("copy")
+        if not cpl or cpl["proj"]:
+            return None
+        cname = _closure_def_of(f, cpl["local"])
+        if cname is None or cname not in views.raw or cname in stack:
+            return None
+        h = views.get(cname, depth + 1, stack + (f.get("_name"),))
+        if h.get("arg_count") != 1 or len(f["blocks"]) + len(h["blocks"]) > MAX_VIEW_BLOCKS:
+            return None
+        call = {"k": "call", "callee": cname, "name": "call_once", "resolved": cname, "resolved_local": True, "args": [cop], "dest": cdest, "target": ctarget,
+                "unwind": t.get("unwind"), "line": line, "exp": None, "synth": True, "gargs": [], "trait": None, "self_ty": None, "self_adt": None}
+        nb = _new_block(f, [], call, "choice-apply")
+        _splice(f, nb, h, cname, thread=False)
+        return nb
+    if nm in ("or_else", "or") and t.get("self_adt") == O and len(t["args"]) == 2:
+        sop = t["args"][0]
+        spl = sop.get("move")
+        pre = []
+        if spl and not spl["proj"]:
+            x = spl["local"]
+        else:
+            x = _new_local(f, t.get("self_ty") or O, "choice-subject")
+            pre = [mk(pl(x), {"use": sop})]
+        d = _new_local(f, "isize", "choice-discr")
+        if nm == "or_else":
+            b_none = closure_call(t["args"][1], dict(dest), target)
+            if b_none is None:
+                return False
+        else:
+            b_none = _new_block(f, [mk(dest, {"use": t["args"][1]})], dict(goto_t), "choice-none")
+        b_some = _new_block(f, [mk(dest, {"use": {"move": pl(x)}})], dict(goto_t), "choice-some")
+        b["stmts"] = list(b["stmts"]) + pre + [mk(pl(d), {"discriminant": pl(x)})]
+        b["desugared_call"] = t
+        b["term"] = {"k": "switch", "discr": {"move": pl(d)}, "targets": [[1, b_some]], "otherwise": b_none, "line": line, "exp": "desugar:Choice"}
+        pending.append((target, b_none, dest["local"], "choice"))
+        return True
+    if nm in ("then_some", "then") and (t.get("self_ty") or "") == "bool" and len(t["args"]) == 2:
+        agg = lambda vname, vidx, ops: {"aggregate": {"kind": "adt", "adt": O, "variant": vname, "idx": vidx, "fields": ["0"] if ops else []}, "ops": ops}
+        b_false = _new_block(f, [mk(dest, agg("None", 0, []))], dict(goto_t), "choice-none")
+        if nm == "then_some":
+            b_true = _new_block(f, [mk(dest, agg("Some", 1, [t["args"][1]]))], dict(goto_t), "choice-some")
+        else:
+            ga = t.get("gargs") or []
+            r = _new_local(f, ga[0] if ga else "?", "choice-result")
+            b_wrap = _new_block(f, [mk(dest, agg("Some", 1, [{"move": pl(r)}]))], dict(goto_t), "choice-some")
+            b_true = closure_call(t["args"][1], pl(r), b_wrap)
+            if b_true is None:
+                return False
+        b["desugared_call"] = t
+        b["term"] = {"k": "switch", "discr": t["args"][0], "targets": [[0, b_false]], "otherwise": b_true, "line": line, "exp": "desugar:Choice"}
+        pending.append((target, b_false, dest["local"], "choice"))
+        return True
+    return False
+
+
 def _live_blocks(f):
     """ids of the blocks reachable from the entry (threading leaves the unthreaded originals behind, often unreachable)"""
     blocks = f["blocks"]
@@ -1786,6 +1857,11 @@ class Views:
                         _desugar_transpose(f, bid, pending)
                     except Exception:
                         pass
+                elif tt["k"] == "call" and tt.get("name") in ("or_else", "then_some", "then", "or") and not f["blocks"][bid]["cleanup"]:
+                    try:
+                        _desugar_choice(self, f, bid, depth, stack, pending)
+                    except Exception:
+                        pass
             for bid in own_ids:
                 tt = f["blocks"][bid]["term"]
                 if tt["k"] == "call" and tt.get("trait") == "std::iter::Iterator" and tt.get("name") in STAGE_ADAPTORS + ("for_each", "try_for_each") and not f["blocks"][bid]["cleanup"]:
@@ -1813,7 +1889,11 @@ class Views:
                     _thread_result(f, {"target": target}, [x["id"] for x in f["blocks"] if not x["cleanup"]], retloc, label)
                 except Exception:
                     pass
-            for bid in own_ids:
+            # the function's own calls, and the calls to crate-local function items that the rewrites above made explicit
+            # (`.map(parse_algorithm)`, `.filter_map(Self::unpack_one)`)
+            synth_local = [b["id"] for b in f["blocks"] if b["id"] not in set(own_ids) and not b["cleanup"] and b["term"]["k"] == "call" and b["term"].get("synth")
+                           and b["term"].get("resolved_local") and not b.get("origin")]
+            for bid in own_ids + synth_local:
                 b = f["blocks"][bid]
                 t = b["term"]
                 if t["k"] != "call" or not t.get("resolved_local"):
